@@ -74,7 +74,13 @@ class PairDomain(Domain):
         d = st.data[table]
         k = (e, T)
         if k not in d:
-            if e in st.data['rows_gone'] and table == 'inE':
+            other = st.data['inC' if table == 'inE' else 'inE']
+            if e in st.data['rows_gone'] and k not in other:
+                # the row was dropped (justified by emptiness / a completed
+                # de-indexing loop): the entity owns nothing, in both tables
+                d[k] = False
+                other[k] = False
+            elif e in st.data['rows_gone'] and table == 'inE':
                 d[k] = False
             else:
                 other = st.data['inC' if table == 'inE' else 'inE']
@@ -111,7 +117,7 @@ class PairDomain(Domain):
     def resolve_call(self, st, call, walker):
         r = walker.default_resolve(st, call)
         if r is None:
-            return None
+            return walker.resolve_helper(st, call)
         f = r[0]
         if f.name in self.PRIMITIVES:
             return None
@@ -172,6 +178,12 @@ class PairDomain(Domain):
             b, keys = chain(n.left)
             if b == E and len(keys) == 2:
                 return False
+            if isinstance(n.left, ast.Call) and isinstance(
+                    n.left.func, ast.Attribute) and n.left.func.attr == 'pop' \
+                    and len(n.left.args) == 1:
+                b, keys = chain(n.left.func.value)
+                if b == E and len(keys) == 1:
+                    return False
         return fold_truth(n)
 
     def _membership(self, n):
@@ -541,6 +553,7 @@ def analyse_writers(program, rep):
     summaries = {}
     inprogress = set()
     stats = {}
+    callers = {}
 
     def analyse(m, c):
         if m.name in summaries:
@@ -558,6 +571,8 @@ def analyse_writers(program, rep):
                 continue
             st = ex.state
             npaths += 1
+            callers.setdefault(m.qualname, set()).update(
+                st.data['summary_calls'])
             if st.data['ops']:
                 summ.has_sites = True
             entry = []
@@ -585,6 +600,20 @@ def analyse_writers(program, rep):
         for m in c.methods.values():
             if m.kind == 'method':
                 analyse(m, c)
+    # A private helper that performs one half of a paired update is judged
+    # through its callers (which see its summary): its own exit discrepancy
+    # is not a violation when every use of it is inside a World method.
+    for (rule, fn, text, line), r in list(results.items()):
+        if rule != 'pair' or not r['bad'] or not text.startswith('pair ('):
+            continue
+        mname = fn.split('.')[-1]
+        if not mname.startswith('_') or mname.startswith('__'):
+            continue
+        users = [k for k, v in callers.items() if mname in v]
+        if users:
+            r['ok'] += len(r['bad'])
+            r['bad'] = []
+            r['deferred'] = users
     site_of = lambda fn: f'{world.module.relpath}:{fn}'
     nwriters = sum(1 for v in stats.values() if v['writes_tables'])
     rep.count('paths', sum(v['paths'] for v in stats.values()))
@@ -599,6 +628,11 @@ def analyse_writers(program, rep):
             rep.bad(rname, site_of(fn), text, b['why'],
                     detail={'path': b['path'], 'failing_paths': len(r['bad']),
                             'conforming_paths': r['ok']}, line=line)
+        elif r.get('deferred'):
+            rep.ok(rname, site_of(fn), text,
+                   'helper performing one half of a paired update; judged '
+                   'through its callers ' + ', '.join(sorted(r['deferred'])),
+                   line=line, nontrivial=False)
         else:
             rep.ok(rname, site_of(fn), text,
                    f'holds on all {r["ok"]} paths', line=line)
@@ -653,34 +687,59 @@ def _bool_eval(n, env):
 
 def check_readers(program, rep):
     world = program.cls('World')
-    # entity_exists
+    # entity_exists: truth table over (owns components, awaiting deletion),
+    # every valuation walked as a path
     f = program.method('World', 'entity_exists')
-    body = strip_docstring(f.node.body)
-    rets = [s for s in body if isinstance(s, ast.Return)]
     p = f.params()[1] if len(f.params()) > 1 else 'entity'
-    if len(rets) == 1 and len([s for s in body if not isinstance(
-            s, (ast.Assert, ast.Return))]) == 0:
-        try:
-            bad = None
-            for ine in (False, True):
-                for ind in (False, True):
-                    env = {(p, E): ine, (p, DEAD): ind}
-                    got = _bool_eval(rets[0].value, env)
-                    if got != (ine and not ind):
-                        bad = (ine, ind, got)
-            rep.check(bad is None, 'C01.read', f.where, rets[0],
-                      'entity_exists == (in _entities) and not (awaiting '
-                      'deletion), by truth table',
-                      f'entity_exists returns {bad[2] if bad else None} for '
-                      f'(has components={bad[0] if bad else None}, awaiting '
-                      f'deletion={bad[1] if bad else None})',
-                      line=rets[0].lineno)
-        except AnalysisError as ex:
-            rep.inconclusive('C01.read', f.where, rets[0], str(ex),
-                             line=rets[0].lineno)
+
+    class _TT(Domain):
+        def __init__(self, program, ine, ind):
+            super().__init__(program)
+            self.v = {f'{p} in {E}': ine, f'{p} in {DEAD}': ind}
+
+        def resolve_call(self, st, call, walker):
+            return walker.resolve_helper(st, call)
+
+        def decide(self, st, sym, node):
+            t = unget(sym.text)
+            if t in self.v:
+                return self.v[t]
+            return fold_truth(sym.node)
+    bad = None
+    unknown = None
+    for ine in (False, True):
+        for ind in (False, True):
+            w = Walker(program, _TT(program, ine, ind))
+            exits = w.run(f, world)
+            vals = set()
+            for ex in exits:
+                if ex.kind != 'return' or ex.payload is None:
+                    unknown = 'a path does not return a value'
+                    continue
+                n = ex.payload.node
+                if isinstance(n, ast.Constant) and isinstance(n.value, bool):
+                    vals.add(n.value)
+                else:
+                    try:
+                        vals.add(_bool_eval(n, {(p, E): ine, (p, DEAD): ind}))
+                    except AnalysisError as ex2:
+                        unknown = str(ex2)
+            if len(vals) != 1:
+                unknown = unknown or f'{len(vals)} answers for one valuation'
+            elif vals != {ine and not ind}:
+                bad = (ine, ind, vals.pop())
+    if unknown and bad is None:
+        rep.inconclusive('C01.read', f.where, f.node.name, unknown,
+                         line=f.node.lineno)
     else:
-        rep.inconclusive('C01.read', f.where, f.node.name,
-                         'entity_exists is not a single return expression')
+        rep.check(bad is None, 'C01.read', f.where,
+                  'entity_exists: 4 valuations',
+                  'entity_exists == (in _entities) and not (awaiting '
+                  'deletion), by truth table',
+                  f'entity_exists returns {bad[2] if bad else None} for '
+                  f'(has components={bad[0] if bad else None}, awaiting '
+                  f'deletion={bad[1] if bad else None})',
+                  line=f.node.lineno)
     # entities
     f = program.method('World', 'entities')
     body = strip_docstring(f.node.body)
@@ -775,8 +834,12 @@ def check_readers(program, rep):
     for name in ('has_component', 'get_component'):
         f = program.method('World', name)
         ent = f.params()[1]
-        w = Walker(program, Domain(program))
-        Domain.loop_bound = 2
+        class _RD(Domain):
+            loop_bound = 2
+
+            def resolve_call(self, st, call, walker):
+                return walker.resolve_helper(st, call)
+        w = Walker(program, _RD(program))
         exits = w.run(f, world)
         bad = None
         nret = 0
@@ -788,7 +851,7 @@ def check_readers(program, rep):
             val = ex.payload
             positive = val is not None and (
                 (isinstance(val.node, ast.Constant) and val.node.value is True)
-                or norm(val.node).startswith(f'{E}['))
+                or norm(unget(val.node)).startswith(f'{E}['))
             if not positive:
                 continue
             nret += 1
@@ -796,12 +859,12 @@ def check_readers(program, rep):
             ok = False
             for n, tr in reversed(conds):
                 if isinstance(n, ast.Compare) and isinstance(n.ops[0], ast.In):
-                    r = norm(n.comparators[0])
-                    if r in (f'{E}[{ent}]', f'{E}.get({ent}, {{}})') and tr:
+                    r = norm(unget(n.comparators[0]))
+                    if r == f'{E}[{ent}]' and tr:
                         ok = True
                         x = norm(n.left)
-                        if name == 'get_component' and norm(val.node) != \
-                                f'{E}[{ent}][{x}]':
+                        if name == 'get_component' and norm(unget(
+                                val.node)) != f'{E}[{ent}][{x}]':
                             ok = False
                     break
             if not ok:
